@@ -18,7 +18,8 @@ CONSTANTS Readers       \* set of reader identifiers (positive integers)
 
 VARIABLES
   relW,      \* writer is RELIABLE
-  volW,      \* writer durability is VOLATILE (late joiners are not owed earlier samples)
+  volW,      \* writer durability is EXPLICITLY Volatile (QosPolicies::is_volatile; a writer without a
+             \* durability policy serves history like a TransientLocal one and passes RxO with any reader)
   depthLim,  \* History depth / resource limit that bounds retention
   wr,        \* Seq of [pid, single]: wr[sn] = what was written with sequence number sn
   hist,      \* set of retained sequence numbers (observed)
@@ -26,14 +27,18 @@ VARIABLES
   ackLo,     \* [Readers -> Int] base of the latest ACKNACK of this match (1 = nothing yet)
   ackHi,     \* [Readers -> Int] highest base ever acknowledged in this match
   req,       \* [Readers -> SUBSET Int] requested and not yet answered
-  pre,       \* [Readers -> Int] last sequence number that existed when the reader was matched
+  pre,       \* [Readers -> Int] last sequence number this reader is NOT owed: everything written before the
+             \* match if the writer is Volatile or the reader did not request TransientLocal, else 0
+  conf,      \* [Readers -> BOOLEAN] the ACKNACKs received from the reader during this match are a stream a
+             \* conforming reader produces over a loss-only FIFO channel: only if reliable, base never
+             \* decreasing, nothing requested below the base
   wAct,      \* a wait_for_acknowledgments is pending
   wUntil,    \* last sequence number written before the wait
   wMay,      \* readers that, on the most generous reading, still have to acknowledge
   wMust,     \* readers that, on the strictest reading, still have to acknowledge
   viol
 
-wabsVars == <<relW, volW, depthLim, wr, hist, rd, ackLo, ackHi, req, pre, wAct, wUntil, wMay, wMust, viol>>
+wabsVars == <<relW, volW, depthLim, wr, hist, rd, ackLo, ackHi, req, pre, conf, wAct, wUntil, wMay, wMust, viol>>
 
 LastSN == Len(wr)
 WMin(S) == CHOOSE x \in S : \A y \in S : x <= y
@@ -49,6 +54,7 @@ WAbsInit(rel, vol, depth) ==
   /\ ackHi = [r \in Readers |-> 1]
   /\ req = [r \in Readers |-> {}]
   /\ pre = [r \in Readers |-> 0]
+  /\ conf = [r \in Readers |-> TRUE]
   /\ wAct = FALSE /\ wUntil = 0 /\ wMay = {} /\ wMust = {}
   /\ viol = {}
 
@@ -58,21 +64,27 @@ WAbsInit(rel, vol, depth) ==
 \*                      [k |-> "FRAG", sn, pid, ok]
 \*                      [k |-> "GAP",  set]            all sequence numbers the GAP covers
 \*                      [k |-> "HB",   first, last]
-\* wrN, histN: written samples / retained set at the time of sending.
+\* wrN, histN, preN, confN: written samples / retained set / not-owed bound / conformance AFTER the event
+\* (the datagrams of an event are judged against the state the event leads to).
 
-GapLegit(r, g, wrN, histN) ==
+GapLegit(r, g, wrN, histN, preN) ==
      g \notin histN                                     \* no longer (or never) retrievable
   \/ g > Len(wrN)
   \/ (g >= 1 /\ g <= Len(wrN) /\ wrN[g].single # 0 /\ wrN[g].single # r)   \* written for someone else
-  \/ (r \in Readers /\ g <= pre[r])                     \* volatile writer, reader joined later
+  \/ (r \in Readers /\ g <= preN[r])                    \* not owed: written before a match without history
 
-SubViol(r, s, wrN, histN) ==
+SubViol(r, s, wrN, histN, preN, confN) ==
   IF s.k = "DATA" \/ s.k = "FRAG" THEN
        (IF s.sn < 1 \/ s.sn > Len(wrN) THEN {"C04_data_for_unwritten_sn"}
         ELSE   (IF ~s.ok \/ s.pid # wrN[s.sn].pid THEN {"C04_wrong_bytes"} ELSE {})
-          \cup (IF wrN[s.sn].single # 0 /\ wrN[s.sn].single # r THEN {"C04_single_reader_leak"} ELSE {}))
+          \cup (IF wrN[s.sn].single # 0 /\ wrN[s.sn].single # r THEN {"C04_single_reader_leak"} ELSE {})
+          \* C07: "a Volatile [late joiner] receives only later samples".  The writer's only memory of "not owed"
+          \* is its pending GAP, which a reader that breaks the protocol (acknowledging what it was never sent,
+          \* ACKNACKs from a best-effort reader) can make it forget; the clause binds for conforming readers.
+          \cup (IF r \in Readers /\ s.sn <= preN[r] /\ confN[r]
+                  THEN {"C07_history_sent_to_reader_that_did_not_request_it"} ELSE {}))
   ELSE IF s.k = "GAP" THEN
-       (IF \E g \in s.set : ~GapLegit(r, g, wrN, histN) THEN {"C04_gap_for_available_sample"} ELSE {})
+       (IF \E g \in s.set : ~GapLegit(r, g, wrN, histN, preN) THEN {"C04_gap_for_available_sample"} ELSE {})
   ELSE IF s.k = "HB" THEN
          (IF s.last # Len(wrN) THEN {"C04_hb_last"} ELSE {})
     \cup (IF s.first # (IF histN = {} THEN Len(wrN) + 1 ELSE WMin(histN)) THEN {"C04_hb_first"} ELSE {})
@@ -80,17 +92,19 @@ SubViol(r, s, wrN, histN) ==
 
 Answered(s) == IF s.k = "DATA" \/ s.k = "FRAG" THEN {s.sn} ELSE IF s.k = "GAP" THEN s.set ELSE {}
 
-RECURSIVE SubsFold(_, _, _, _, _, _, _)
-SubsFold(r, subs, i, wrN, histN, v, ans) ==
+RECURSIVE SubsFold(_, _, _, _, _, _, _, _, _)
+SubsFold(r, subs, i, wrN, histN, preN, confN, v, ans) ==
   IF i > Len(subs) THEN <<v, ans>>
-  ELSE SubsFold(r, subs, i + 1, wrN, histN, v \cup SubViol(r, subs[i], wrN, histN), ans \cup Answered(subs[i]))
+  ELSE SubsFold(r, subs, i + 1, wrN, histN, preN, confN,
+                v \cup SubViol(r, subs[i], wrN, histN, preN, confN), ans \cup Answered(subs[i]))
 
-RECURSIVE SendsFold(_, _, _, _, _, _)
-SendsFold(out, i, wrN, histN, v, rq) ==     \* rq: [Readers -> outstanding requests]
+\* returns <<violated clauses, outstanding requests per reader>>
+RECURSIVE SendsFold(_, _, _, _, _, _, _, _)
+SendsFold(out, i, wrN, histN, preN, confN, v, rq) ==
   IF i > Len(out) THEN <<v, rq>>
   ELSE LET r  == out[i].to
-           sf == SubsFold(r, out[i].subs, 1, wrN, histN, {}, {})
-       IN SendsFold(out, i + 1, wrN, histN, v \cup sf[1],
+           sf == SubsFold(r, out[i].subs, 1, wrN, histN, preN, confN, {}, {})
+       IN SendsFold(out, i + 1, wrN, histN, preN, confN, v \cup sf[1],
                     IF r \in Readers THEN [rq EXCEPT ![r] = @ \ sf[2]] ELSE rq)
 
 (* ----------------------------------------------------- C20: the waiter *)
@@ -105,29 +119,34 @@ WaitViol(done, may, must, act) ==
 
 AbsWrite(pid, single, histN, out, done) ==
   LET wrN == Append(wr, [pid |-> pid, single |-> single])
-      sf  == SendsFold(out, 1, wrN, histN, {}, req)
+      sf  == SendsFold(out, 1, wrN, histN, pre, conf, {}, req)
   IN  /\ wr' = wrN
       /\ hist' = histN
       /\ req' = sf[2]
       /\ viol' = viol \cup sf[1] \cup WaitViol(done, wMay, wMust, wAct)
                       \cup (IF Len(wrN) \notin histN THEN {"C04_new_sample_not_retained"} ELSE {})
-      /\ UNCHANGED <<relW, volW, depthLim, rd, ackLo, ackHi, pre, wAct, wUntil, wMay, wMust>>
+      /\ UNCHANGED <<relW, volW, depthLim, rd, ackLo, ackHi, pre, conf, wAct, wUntil, wMay, wMust>>
 
-AbsMatchR(r, kind, histN, out, done) ==
-  LET compatible == ~(kind = "rel" /\ ~relW)
+\* rtl: the reader requests durability TransientLocal (or stronger).  Request/offered: a reliable reader does not
+\* match a best-effort writer, a reader requesting TransientLocal does not match an explicitly Volatile writer.
+AbsMatchR(r, kind, rtl, histN, out, done) ==
+  LET compatible == ~(kind = "rel" /\ ~relW) /\ ~(rtl /\ volW)
       fresh == compatible /\ rd[r] = "none"
-      sf == SendsFold(out, 1, wr, histN, {}, req)
+      preN  == [pre EXCEPT ![r] = IF fresh THEN (IF volW \/ ~rtl THEN LastSN ELSE 0) ELSE @]
+      confN == [conf EXCEPT ![r] = IF fresh THEN TRUE ELSE @]
+      sf == SendsFold(out, 1, wr, histN, preN, confN, {}, [req EXCEPT ![r] = IF fresh THEN {} ELSE @])
   IN  /\ rd' = [rd EXCEPT ![r] = IF fresh THEN kind ELSE @]     \* a re-announcement keeps the kind
       /\ ackLo' = [ackLo EXCEPT ![r] = IF fresh THEN 1 ELSE @]
       /\ ackHi' = [ackHi EXCEPT ![r] = IF fresh THEN 1 ELSE @]
-      /\ req' = [sf[2] EXCEPT ![r] = IF fresh THEN {} ELSE @]
-      /\ pre' = [pre EXCEPT ![r] = IF fresh THEN (IF volW THEN LastSN ELSE 0) ELSE @]
+      /\ req' = sf[2]
+      /\ pre' = preN
+      /\ conf' = confN
       /\ hist' = histN
       /\ viol' = viol \cup sf[1] \cup WaitViol(done, wMay, wMust, wAct)
       /\ UNCHANGED <<relW, volW, depthLim, wr, wAct, wUntil, wMay, wMust>>
 
 AbsLose(r, histN, out, done) ==
-  LET sf == SendsFold(out, 1, wr, histN, {}, req)
+  LET sf == SendsFold(out, 1, wr, histN, pre, conf, {}, req)
       may == wMay \ {r}
       must == wMust \ {r}
   IN  /\ rd' = [rd EXCEPT ![r] = "none"]
@@ -135,7 +154,7 @@ AbsLose(r, histN, out, done) ==
       /\ wMay' = may /\ wMust' = must
       /\ hist' = histN
       /\ viol' = viol \cup sf[1] \cup WaitViol(done, may, must, wAct)
-      /\ UNCHANGED <<relW, volW, depthLim, wr, ackLo, ackHi, pre, wAct, wUntil>>
+      /\ UNCHANGED <<relW, volW, depthLim, wr, ackLo, ackHi, pre, conf, wAct, wUntil>>
 
 \* ACKNACK(base, set) from reader r.  Only a reliable writer with r matched as reliable reacts.
 AbsAckNack(r, base, set, histN, out, done) ==
@@ -145,12 +164,18 @@ AbsAckNack(r, base, set, histN, out, done) ==
       \* a request creates an obligation only for numbers that were advertised (<= last) and that
       \* this reader has not acknowledged before (an ACKNACK cannot take an acknowledgment back)
       rq0  == IF live THEN [req EXCEPT ![r] = {s \in (@ \cup set) : s >= hi /\ s >= 1 /\ s <= LastSN}] ELSE req
-      sf   == SendsFold(out, 1, wr, histN, {}, rq0)
+      \* what a conforming reader never does
+      rogue == \/ rd[r] # "rel"
+               \/ b < ackHi[r]                      \* base went down (also: an older ACKNACK overtaken by a newer one)
+               \/ \E s \in set : s < base
+      confN == [conf EXCEPT ![r] = @ /\ ~rogue]
+      sf   == SendsFold(out, 1, wr, histN, pre, confN, {}, rq0)
       may  == IF live /\ hi > wUntil THEN wMay \ {r} ELSE wMay
       must == IF live /\ b > wUntil THEN wMust \ {r} ELSE wMust
   IN  /\ ackLo' = [ackLo EXCEPT ![r] = IF live THEN b ELSE @]
       /\ ackHi' = [ackHi EXCEPT ![r] = hi]
       /\ req' = sf[2]
+      /\ conf' = confN
       /\ wMay' = may /\ wMust' = must
       /\ hist' = histN
       /\ viol' = viol \cup sf[1] \cup WaitViol(done, may, must, wAct)
@@ -158,17 +183,17 @@ AbsAckNack(r, base, set, histN, out, done) ==
 
 \* heartbeat tick, one firing of a repair timer: only outputs
 AbsOutputs(histN, out, done) ==
-  LET sf == SendsFold(out, 1, wr, histN, {}, req)
+  LET sf == SendsFold(out, 1, wr, histN, pre, conf, {}, req)
   IN  /\ req' = sf[2]
       /\ hist' = histN
       /\ viol' = viol \cup sf[1] \cup WaitViol(done, wMay, wMust, wAct)
-      /\ UNCHANGED <<relW, volW, depthLim, wr, rd, ackLo, ackHi, pre, wAct, wUntil, wMay, wMust>>
+      /\ UNCHANGED <<relW, volW, depthLim, wr, rd, ackLo, ackHi, pre, conf, wAct, wUntil, wMay, wMust>>
 
 \* the repair timers of reader r have been fired until none is armed
 AbsRepairDone(r, quiescent) ==
   /\ viol' = viol \cup (IF rd[r] = "rel" /\ req[r] # {} THEN {"C04_request_unanswered"} ELSE {})
                   \cup (IF ~quiescent THEN {"C04_repair_never_ends"} ELSE {})
-  /\ UNCHANGED <<relW, volW, depthLim, wr, hist, rd, ackLo, ackHi, req, pre, wAct, wUntil, wMay, wMust>>
+  /\ UNCHANGED <<relW, volW, depthLim, wr, hist, rd, ackLo, ackHi, req, pre, conf, wAct, wUntil, wMay, wMust>>
 
 \* cache cleaning: retained set goes from hist to histN
 Unacked == {sn \in 1..LastSN : \E r \in RelReaders : ackLo[r] <= sn}
@@ -182,7 +207,7 @@ AbsClean(histN, done) ==
       vGrow   == IF ~(histN \subseteq hist) THEN {"C04_cleaning_added_samples"} ELSE {}
   IN  /\ hist' = histN
       /\ viol' = viol \cup vRetain \cup vBound \cup vGrow \cup WaitViol(done, wMay, wMust, wAct)
-      /\ UNCHANGED <<relW, volW, depthLim, wr, rd, ackLo, ackHi, req, pre, wAct, wUntil, wMay, wMust>>
+      /\ UNCHANGED <<relW, volW, depthLim, wr, rd, ackLo, ackHi, req, pre, conf, wAct, wUntil, wMay, wMust>>
 
 \* wait_for_acknowledgments is called (a second call replaces the first)
 AbsWait(done) ==
@@ -192,7 +217,7 @@ AbsWait(done) ==
       /\ wUntil' = LastSN
       /\ wMay' = may /\ wMust' = must
       /\ viol' = viol \cup WaitViol(done, may, must, TRUE)
-      /\ UNCHANGED <<relW, volW, depthLim, wr, hist, rd, ackLo, ackHi, req, pre>>
+      /\ UNCHANGED <<relW, volW, depthLim, wr, hist, rd, ackLo, ackHi, req, pre, conf>>
 
 WInv_NoViolation == viol = {}
 ==========================================================================
